@@ -27,7 +27,7 @@ func main() {
 	twin.Rekey = rekey
 	twin.RunAll(r, nil, func(c twin.Case, n, i twin.Obs) string { return c.Name }, opt, par.Opts{})
 	r.Set("exhaustive", true)
-	r.Set("rule", "S: hierarchy depth 2-3 x receiver kind of B.M x embedding form (value, pointer, interface field) x shadowing (none, value, pointer) x holder (value, pointer) x 18 use forms; D: shadowing with a different signature (none/same/int result/extra parameter) x receiver x depth x holder x 9 assertion / type-switch / call forms against three script interfaces, and 5 ambiguity / depth-resolution shapes; N: nil interface / typed nil forms; H: interpreted S handed to fmt, errors, sort, io consumers x receiver kind x holder; non-trivial = output lines not all equal")
+	r.Set("rule", "S: hierarchy depth 2-3 x receiver kind of B.M x embedding form (value, pointer, interface field) x shadowing (none, value, pointer) x holder (value, pointer) x 18 use forms; D: shadowing with a different signature (none/same/int result/extra parameter) x receiver x depth x holder x 9 assertion / type-switch / call forms against three script interfaces, and 5 ambiguity / depth-resolution shapes; R: two live receivers of one type x 8 use forms (method values kept in variables / slices / maps, interleaved and nested calls through script interfaces) x receiver kind x embedding x shadowing x depth x holder; N: nil interface / typed nil forms; H: interpreted S handed to fmt, errors, sort, io consumers x receiver kind x holder; non-trivial = output lines not all equal")
 	r.Finish()
 }
 
